@@ -9,13 +9,13 @@ for f in sys.argv[3:]:
     for l in open(f):
         m = re.match(r'^(C\d\d-[a-z]) (C\d\d) exit=(\d) violations=(\d+)\s*(.*)$', l.strip())
         if m:
-            res.setdefault(m.group(1), {})[m.group(2)] = (int(m.group(3)), int(m.group(4)), [s for s in m.group(5).split(';') if s][:2])
+            res.setdefault(m.group(1), {})[m.group(2)] = (int(m.group(3)), int(m.group(4)), [s.rstrip(';') for s in re.split(r';(?=C\d\d\|)', m.group(5)) if s.strip(';')][:2])
 for seed, checks in sorted(res.items()):
     p = f'{V}/seeded/{seed}/meta.json'
     if not os.path.exists(p):
         print('no meta for', seed); continue
     m = json.load(open(p))
-    det = [f"{c} ({'; '.join(s.split('|', 1)[1] for s in sigs)})" for c, (code, n, sigs) in sorted(checks.items()) if code == 1 and n > 0]
+    det = [f"{c} ({'; '.join(s.split('|', 1)[1] if '|' in s else s for s in sigs)})" for c, (code, n, sigs) in sorted(checks.items()) if code == 1 and n > 0]
     miss = [c for c, (code, n, sigs) in sorted(checks.items()) if code == 0]
     bad = [c for c, (code, n, sigs) in checks.items() if code == 2]
     m['detected_by'] = '; '.join(det) if det else 'NOT DETECTED'
